@@ -91,6 +91,9 @@ def cases(draw):
     thr = draw(st.sampled_from([0, 0, 0.5, 1, 1, 2 / 3, 0.51]))
     inp = draw(st.sampled_from(["nt", "nt", "ttl"]))
     case = {"g": g, "cfg": cfg, "target": target, "thr": thr, "input": inp, "format": draw(st.sampled_from(["ShEx", "ShEx", "Shacl"]))}
+    if draw(st.integers(0, 4)) == 0:
+        # the document under test is the one emitted by a LATER call on the same Shaper (another threshold / format first)
+        case["earlier_call"] = [draw(st.sampled_from([0, 0.5, 1])), draw(st.sampled_from(["ShEx", "Shacl"]))]
     if inp == "ttl":
         case["ttl_prefixes"] = draw(st.sampled_from(TTL_PREFIXES))
     return case
@@ -175,9 +178,19 @@ def check_chain(case):
     return ok(labels, True)
 
 
+def enumerate_cases(tier):
+    """documents of 5 600 / 10 500 lines (the serializer writes through a 5 000-line buffer)"""
+    for n in ((800,) if tier == "quick" else (800, 1500)):
+        for fmt in ("ShEx", "Shacl"):
+            yield {"g": {"big": n}, "cfg": {"instances_report_mode": "mixed"}, "target": {"mode": "all"}, "thr": 0, "input": "nt", "format": fmt}
+
+
 def check(case):
     if "items" in case:
         return check_chain(case)
+    if "big" in case["g"]:
+        from . import c18
+        case = dict(case, g=c18.big_graph(case["g"]["big"]))
     kw, triples = common.base_kwargs(case)
     cfg = case["cfg"]
     if "namespaces_dict" in cfg:
@@ -188,10 +201,19 @@ def check(case):
         if any(t[0][0] == "bnode" or t[2][0] == "bnode" for t in triples):
             pass    # rdflib relabels bnodes; irrelevant for well-formedness
     fmt = case["format"]
-    text, crash = sut.shex(kw, acceptance_threshold=case["thr"], output_format=fmt)
+    if case.get("earlier_call"):
+        def go():
+            sh = sut.Shaper(**kw)
+            sh.shex_graph(string_output=True, acceptance_threshold=case["earlier_call"][0], output_format=case["earlier_call"][1])
+            return sh.shex_graph(string_output=True, acceptance_threshold=case["thr"], output_format=fmt)
+        text, crash = sut.guarded(go, 30)
+    else:
+        text, crash = sut.shex(kw, acceptance_threshold=case["thr"], output_format=fmt)
     if crash is not None:
         return discard("crash:" + crash.bucket)
     labels = {"shexc" if fmt == "ShEx" else "shacl"}
+    if case.get("earlier_call"):
+        labels.add("second-call-on-same-shaper")
     sel = common.selection(case, triples)
     label_of = common.labels_for(sel, cfg.get("shapes_namespace", refmodel.SHAPES_NS))
     dup_local = len(set(label_of.values())) != len(label_of)
